@@ -229,4 +229,20 @@ theorem c14_abstract_groups_canon (tbl : LayerTbl) (pin : Bool)
 example : exportLayerMap [(5, some 7, some 8)] true [(5, [.rect ⟨4, 4⟩ ⟨0, 1⟩, .path [⟨0, 0⟩, ⟨3, 0⟩] 2])] =
     .ok [⟨some (5, 7), [⟨[], some ⟨0, 1⟩, 4, 3⟩], [], [⟨[], 2, [⟨0, 0⟩, ⟨3, 0⟩]⟩]⟩] := by decide
 
+/-- **the round trip's normal form is stable**: what came back from one trip (net spelled `none` when empty,
+    rectangle corners ordered lower-left / upper-right) is not changed by the normalisation of a further trip -/
+theorem c14_norm_idempotent (e : Elem) : normElem (normElem e) = normElem e := by
+  obtain ⟨n, l, p, s⟩ := e
+  simp only [normElem, netStr_optNet]
+  congr 1
+  cases s with
+  | rect p0 p1 =>
+    simp only [normShape]
+    congr 1 <;> congr 1 <;> omega
+  | polygon pts => rfl
+  | path pts w => rfl
+/-- non-vacuity: a flipped rectangle with an empty net name is changed by the first trip only -/
+example : normElem ⟨some [], 1, 0, .rect ⟨5, 0⟩ ⟨0, 5⟩⟩ = ⟨none, 1, 0, .rect ⟨0, 0⟩ ⟨5, 5⟩⟩ ∧
+    normElem ⟨none, 1, 0, .rect ⟨0, 0⟩ ⟨5, 5⟩⟩ = ⟨none, 1, 0, .rect ⟨0, 0⟩ ⟨5, 5⟩⟩ := by decide
+
 end L21.RawProto
